@@ -9,7 +9,10 @@ per-object flag, lazily imported string protocols).  All queries of a case run
 as one shuffled history on the same manager (several objects per type when
 factories depend on the object; optional late ABC registration in between;
 re-assignment of the same object to the same trait after its flag was flipped
-or an offer was registered on the live manager).
+or an offer was registered on the live manager).  A sample of the trait
+assignments is repeated on holders that carry instance-level traits (listeners
+added / removed through every mechanism, add_trait, class-level listeners,
+overriding subclasses, copies; see _c17_holders).
 
 Oracle: brute-force enumeration of every sequence of distinct applicable
 offers whose factories all succeed (run on a pure *model* of the factories),
@@ -27,6 +30,7 @@ observable chain: it must be the visible projection of some enumerated success
 with the minimum number of offers.
 """
 import abc
+import pickle
 import sys
 import types
 
@@ -40,6 +44,7 @@ import traits.adaptation.api as adaptation_api
 
 from vf.ctx import CaseTimeout
 from vf.util import short
+from vf.monitors import _c17_holders as HV
 
 META = {
     "level": "exploration",
@@ -70,6 +75,20 @@ META = {
              "the offer's own target or a fixed class - down to a depth budget of 1-2; they ignore the "
              "answer, or succeed iff / iff not the companion is supported; every nested answer is judged "
              "against the brute force one level deeper, which also feeds the model of those factories. "
+             "Stratum 'holders that carry instance-level traits' (all graphs but the re-entrant ones; own random "
+             "stream): after 30% of the trait-route assignments that store an adapter (5% of the others) and were "
+             "judged correct on the pristine holder, the SAME object is assigned to the same trait of a holder "
+             "with a history, built by one of three recipes drawn per graph from six groups - listener "
+             "(obj.observe / on_trait_change on the name, the same from a parent through 'child.name', "
+             "observe('*'), anytrait on_trait_change, sync_trait to a peer), listener-removed (the same, removed "
+             "again before the assignment), add_trait (the same definition added to the instance, optionally "
+             "followed by a listener), class-level (@observe / @on_trait_change methods, static _name_changed "
+             "methods, Property(observe= / depends_on=)), subclass (overriding the traits with the same "
+             "definitions over a plain or decorated base, or only inheriting from a decorated base), copy "
+             "(copy.copy / deepcopy / clone_traits / pickle round trip of a holder prepared by one of the above, "
+             "optionally already holding an AdaptsTo value, optionally a listener on the copy) - and judged by "
+             "the same oracle (stored value = adapter vs. original with the adapter in the shadow name_, "
+             "TraitError iff no chain, default substitution); holders are reused for later objects of the graph. "
              "Every (object, target "
              "class) query goes through adapt / adapt+default / supports_protocol / the global "
              "functions and through Supports, AdaptsTo, Instance(adapt=yes|default), List(Supports), "
@@ -114,7 +133,19 @@ META = {
                   "nested_requests_status_none": 280,
                   "nested_requests_via_Supports": 220,
                   "nested_requests_via_AdaptsTo": 250,
-                  "nested_requests_via_supports_protocol": 160},
+                  "nested_requests_via_supports_protocol": 160,
+                  "holder_assignments": 16000,
+                  "holder_assignments_storing_an_adapter": 11000,
+                  "holder_assignments_storing_an_adapter_via_AdaptsTo": 1400,
+                  "holder_assignments_storing_an_adapter_via_Supports": 1400,
+                  "holder_assignments_to_a_holder_assigned_before": 5500,
+                  "holder_copies_made": 1500,
+                  "holder_assignments_storing_an_adapter_group_listener": 1800,
+                  "holder_assignments_storing_an_adapter_group_listener-removed": 1800,
+                  "holder_assignments_storing_an_adapter_group_add_trait": 1800,
+                  "holder_assignments_storing_an_adapter_group_class-level": 1800,
+                  "holder_assignments_storing_an_adapter_group_subclass": 1800,
+                  "holder_assignments_storing_an_adapter_group_copy": 1800},
         "thorough": {"evaluations": 2700000, "adapt_results_judged": 1350000, "chains_found": 135000,
                      "chains_len2plus": 22500, "chains_len3plus": 3300, "failures_checked": 195000,
                      "provides_checked": 225000, "specificity_checked": 18000,
@@ -149,7 +180,19 @@ META = {
                      "nested_requests_status_none": 8400,
                      "nested_requests_via_Supports": 6600,
                      "nested_requests_via_AdaptsTo": 7500,
-                     "nested_requests_via_supports_protocol": 4800},
+                     "nested_requests_via_supports_protocol": 4800,
+                     "holder_assignments": 480000,
+                     "holder_assignments_storing_an_adapter": 330000,
+                     "holder_assignments_storing_an_adapter_via_AdaptsTo": 42000,
+                     "holder_assignments_storing_an_adapter_via_Supports": 42000,
+                     "holder_assignments_to_a_holder_assigned_before": 165000,
+                     "holder_copies_made": 45000,
+                     "holder_assignments_storing_an_adapter_group_listener": 54000,
+                     "holder_assignments_storing_an_adapter_group_listener-removed": 54000,
+                     "holder_assignments_storing_an_adapter_group_add_trait": 54000,
+                     "holder_assignments_storing_an_adapter_group_class-level": 54000,
+                     "holder_assignments_storing_an_adapter_group_subclass": 54000,
+                     "holder_assignments_storing_an_adapter_group_copy": 54000},
     },
     "assumptions": [
         "issubclass is the 'provides' relation (as AdaptationManager.provides_protocol documents)",
@@ -762,16 +805,21 @@ MANAGER_ROUTES = ("adapt", "adapt-default-kw", "adapt-default-pos", "adapt-none"
                   "global-adapt", "global-supports_protocol")
 
 
+def trait_ns(i, T):
+    """Fresh definitions of the holder's traits for target number i."""
+    return {"sup%d" % i: Supports(T),
+            "ada%d" % i: AdaptsTo(T),
+            "iny%d" % i: Instance(T, adapt="yes"),
+            "ind%d" % i: Instance(T, adapt="default"),
+            "inf%d" % i: Instance(T, factory=DefaultMarker, adapt="default"),
+            "lst%d" % i: List(Supports(T)),
+            "uni%d" % i: Union(Supports(T), Int)}
+
+
 def make_holder(tag, targets):
     ns = {}
     for i, T in enumerate(targets):
-        ns["sup%d" % i] = Supports(T)
-        ns["ada%d" % i] = AdaptsTo(T)
-        ns["iny%d" % i] = Instance(T, adapt="yes")
-        ns["ind%d" % i] = Instance(T, adapt="default")
-        ns["inf%d" % i] = Instance(T, factory=DefaultMarker, adapt="default")
-        ns["lst%d" % i] = List(Supports(T))
-        ns["uni%d" % i] = Union(Supports(T), Int)
+        ns.update(trait_ns(i, T))
     return type(HasTraits)("H%s" % tag, (HasTraits,), ns)
 
 
@@ -914,6 +962,7 @@ def run_case(ctx, gi):
         module = types.ModuleType(modname)
         sys.modules[modname] = module
     prev_manager = get_global_adaptation_manager()
+    hv_created = []
     try:
         base_flavour = rng.choice(("plain", "abc")) if flavour == "lazy" else flavour
         classes, nreg = gen_classes(rng, tag, base_flavour, metas, modname, spec_stratum)
@@ -1220,6 +1269,105 @@ def run_case(ctx, gi):
         NEST.request = nested_request
         NEST.pending = []
 
+        # ---- stratum "holders that carry instance-level traits": the trait
+        # sub-check repeated, right after it passed on the pristine holder, on a
+        # holder of the same traits that has a history (listeners registered /
+        # removed through every mechanism, add_trait re-definitions, class-level
+        # listeners, overriding subclasses, copies) -- see _c17_holders.  Own
+        # random stream: the main workload is the same with and without it.
+        hrng = ctx.rng("holders", gi)
+        hv_slots = [] if nest_stratum else [HV.draw_recipe(hrng) for _ in range(3)]
+        hv_variants = {}
+        hv_state = {"active": bool(hv_slots)}
+
+        def holder_variant(slot, ti, obj, limit):
+            """The holder of recipe `slot` for target ti (built on first use)."""
+            var = hv_variants.get((slot, ti))
+            if var is not None:
+                return var or None
+            recipe = hv_slots[slot]
+            T = classes[ti]
+
+            def mk():
+                return trait_ns(ti, T)
+            if recipe["cls"] == "plain" and recipe["copy"] is None:
+                cls = H
+            else:
+                cls = HV.build_class(recipe["cls"], "HV%s_%d_%d" % (tag, slot, ti), mk, hv_created,
+                                     hrng.random() < 0.5)
+            var = HV.Variant(recipe, cls, mk)
+            ctx.count("holder_variants_built")
+            if recipe["copy"]:
+                def prefill(src):
+                    out = guarded(lambda: setattr(src, "ada%d" % ti, obj), limit, profiled)
+                    if out[0] == "ok":
+                        ctx.count("holder_copies_of_a_holder_with_an_AdaptsTo_value")
+                if not var.finish_copy(prefill, hrng.choice((2, pickle.HIGHEST_PROTOCOL))):
+                    ctx.count("holder_copy_not_possible")
+                    ctx.count("holder_copy_not_possible_%s_%s" % (recipe["copy"], var.copy_failed))
+                    hv_variants[(slot, ti)] = False
+                    return None
+                ctx.count("holder_copies_made")
+                ctx.count("holder_copies_made_by_" + recipe["copy"])
+            hv_variants[(slot, ti)] = var
+            return var
+
+        def holder_check(route, ti, oi, e, limit, hist, qi):
+            """Same assignment as the one that just passed on the pristine
+            holder, on a holder with instance-level traits -> True on violation."""
+            src, obj, flag = objs[oi]
+            slot = hrng.randrange(len(hv_slots))
+            recipe = hv_slots[slot]
+            name = "%s%d" % (TRAIT_PREFIX[route], ti)
+            try:
+                var = holder_variant(slot, ti, obj, limit)
+                if var is None:
+                    return False
+                reused = bool(var.done)
+                var.prepare(name)
+            except CaseTimeout:
+                raise
+            except Exception as exc:  # noqa: BLE001 - building the history is not what is judged
+                ctx.count("holder_preparation_failed")
+                ctx.count("holder_preparation_failed_%s_%s" % (HV.mechanism(recipe), type(exc).__name__))
+                hv_variants[(slot, ti)] = False
+                return False
+            seen = INFO["last"]
+            INFO["last"] = None
+            c3, oc3 = check_trait_route(route, var.holder, ti, obj, e, offers, sub, limit, profiled, ctx)
+            observed, INFO["last"] = INFO["last"], seen
+            ctx.ev()
+            mech = HV.mechanism(recipe)
+            ctx.count("holder_assignments")
+            ctx.count("holder_assignments_group_" + recipe["group"])
+            ctx.count("holder_assignments_mechanism_" + mech)
+            ctx.count("holder_assignments_via_" + route)
+            if reused:
+                ctx.count("holder_assignments_to_a_holder_assigned_before")
+            if e.status == "chain":
+                ctx.count("holder_assignments_storing_an_adapter")
+                ctx.count("holder_assignments_storing_an_adapter_group_" + recipe["group"])
+                if route in ("AdaptsTo", "Supports"):
+                    ctx.count("holder_assignments_storing_an_adapter_via_" + route)
+            ctx.sig(flavour, "holder", recipe["group"], mech, recipe["cls"], recipe["post"], route, e.status,
+                    oc3, bool(c3))
+            if not c3:
+                return False
+            hv_state["active"] = False          # this stratum's history ends at its first violation
+            ctx.violation(
+                "trait/%s/%s/holder:%s" % (route, c3, mech),
+                "%s via %s on a holder with instance-level traits (recipe: %s), although the same assignment "
+                "to a pristine holder of the same traits was correct a moment before: instance of %s (object "
+                "flag %d, history: %s) -> %s: expected status=%s min offers=%d admissible visible chains=%s; "
+                "outcome class=%s observed=%s; offers=%s; classes=%s; virtual=%s"
+                % (c3, route, HV.label(recipe), src.__name__, flag, hist, classes[ti].__name__, e.status, e.L,
+                   sorted(e.minset)[:6], oc3, observed, desc["offers"], desc["classes"], desc["virtual"]),
+                dict(desc, source=src.__name__, object_flag=flag, history=hist, query_index=qi,
+                     target=classes[ti].__name__, route=route, status=e.status, min_offers=e.L,
+                     admissible=sorted(e.minset)[:10], observed=observed, holder_recipe=recipe,
+                     holder_trait=name))
+            return True
+
         def report(layer, route, c, oc, e, hist, oi, ti, qi, limit):
             """Record a violation; True when the case must stop (non-termination)."""
             src, obj, flag = objs[oi]
@@ -1360,6 +1508,13 @@ def run_case(ctx, gi):
                     violated = True
                     stop = report(layer, route, c, oc, e, hist, oi, ti, qi, limit)
                     break            # this query's history stops at its first violation
+                if layer == "t" and hv_state["active"] and hrng.random() < (
+                        0.3 if e.status == "chain" else 0.05):
+                    if holder_check(route, ti, oi, e, limit, hist, qi):
+                        violated = True
+                        break
+                    if ST.last_used * 20 > limit:
+                        ctx.count("calls_using_over_5pct_of_step_budget")
             if stop:
                 return
             # ---- re-assignment: the SAME object to the same trait of the same
@@ -1456,6 +1611,7 @@ def run_case(ctx, gi):
         NEST.maxd = 0
         NEST.depth = 0
         NEST.request = None
+        HV.cleanup(hv_created)
         set_global_adaptation_manager(prev_manager)
         if modname is not None:
             sys.modules.pop(modname, None)
